@@ -645,6 +645,7 @@ pub fn parts() -> Vec<Box<dyn PartDyn>> {
         shrink_budget: 3000,
         confirm_runs: 1,
             fuzz: Some(fuzz_case),
+            watchdog_s: 0,
     }),
     Box::new(Part::<ECase> {
         name: "e2e",
@@ -657,5 +658,6 @@ pub fn parts() -> Vec<Box<dyn PartDyn>> {
         shrink_budget: 200,
         confirm_runs: 2,
         fuzz: None,
+        watchdog_s: 60,
     })]
 }
